@@ -262,6 +262,85 @@ pub fn huge_terms(max_width: usize) -> Vec<R> {
     out
 }
 
+/// fat towers: 16, 24 and 40 levels with FIVE components on every level (the nested child first, and last) - work
+/// that is repeated per level doubles 40 times here; the ASCII text of the 40-level product has 481 characters
+pub fn fat_towers() -> Vec<R> {
+    let mut out = vec![];
+    let sib = [R::word("b"), R::word("c"), R::atom(Tag::IVar, "d"), R::word("e")];
+    for d in [16usize, 24, 40] {
+        for &tag in &[Tag::Product, Tag::SetExt, Tag::Conj, Tag::SeqConj] {
+            for last in [false, true] {
+                let mut t = R::word("a");
+                for _ in 0..d {
+                    let mut kids: Vec<R> = sib.to_vec();
+                    if last {
+                        kids.push(t);
+                    } else {
+                        kids.insert(0, t);
+                    }
+                    t = R::node(tag, kids);
+                }
+                out.push(t);
+            }
+        }
+    }
+    out
+}
+
+/// siblings whose names are related: the second name extends the first (and the other way round), for names of 3, 16,
+/// 19 and 40 characters; idiomatic NARS shapes (operations over {SELF}, nested conditionals) and every value obtained
+/// from them by deleting one component of one variable-arity compound (a renderer or formatter that elides a
+/// component makes such neighbours collide)
+pub fn related_siblings_and_idioms() -> Vec<R> {
+    let mut out = vec![];
+    for base in ["abc", "temperatureSens1", "temperatureSensor01", "aVeryLongNameThatGoesOnForFortyCharacter"] {
+        let (x, y) = (R::word(base), R::word(&format!("{base}2")));
+        for (p, q) in [(&x, &y), (&y, &x)] {
+            out.push(R::node(Tag::Product, vec![p.clone(), q.clone()]));
+            out.push(R::node(Tag::SetExt, vec![p.clone(), q.clone()]));
+            out.push(R::node(Tag::Conj, vec![p.clone(), q.clone(), R::word("z")]));
+            out.push(R::pair(Tag::Inh, p.clone(), q.clone()));
+            out.push(R::image(Tag::ImageExt, 1, vec![p.clone(), q.clone()]));
+        }
+        let (ox, oy) = (R::atom(Tag::Operator, base), R::atom(Tag::Operator, &format!("{base}2")));
+        out.push(R::node(Tag::Product, vec![ox, oy]));
+    }
+    let w = |n: &str| R::word(n);
+    let selfset = R::node(Tag::SetExt, vec![w("SELF")]);
+    let idioms = vec![
+        R::pair(Tag::Inh, R::node(Tag::Product, vec![selfset.clone(), w("ball")]), R::atom(Tag::Operator, "pick")),
+        R::pair(Tag::Inh, R::node(Tag::Product, vec![selfset.clone(), w("ball"), w("table")]), R::atom(Tag::Operator, "put")),
+        R::pair(Tag::ImplPred, R::node(Tag::SeqConj, vec![R::pair(Tag::Inh, R::node(Tag::SetExt, vec![w("ball")]), R::node(Tag::SetInt, vec![w("left")])), R::interval(3), R::pair(Tag::Inh, R::node(Tag::Product, vec![selfset.clone(), w("ball")]), R::atom(Tag::Operator, "pick"))]), R::pair(Tag::Inh, selfset.clone(), R::node(Tag::SetInt, vec![w("good")]))),
+        R::pair(Tag::Impl, R::node(Tag::Conj, vec![R::pair(Tag::Inh, R::atom(Tag::IVar, "x"), w("bird")), R::pair(Tag::Inh, R::atom(Tag::IVar, "x"), w("flyer"))]), R::pair(Tag::Inh, R::atom(Tag::IVar, "x"), w("animal"))),
+        R::pair(Tag::Inh, w("tim"), R::image(Tag::ImageExt, 1, vec![w("livingIn"), w("usa")])),
+    ];
+    fn deletions(r: &R, out: &mut Vec<R>) {
+        for i in 0..r.kids.len() {
+            // delete component i of this node (variable-arity nodes with more than one component only)
+            if matches!(r.tag.shape(), Shape::Set | Shape::Seq) && r.kids.len() > 1 {
+                let mut k = r.kids.clone();
+                k.remove(i);
+                out.push(R { kids: k, ..r.clone() });
+            }
+            // or delete deeper, inside component i
+            let mut inner = vec![];
+            deletions(&r.kids[i], &mut inner);
+            for d in inner {
+                let mut k = r.kids.clone();
+                k[i] = d;
+                out.push(R { kids: k, ..r.clone() });
+            }
+        }
+    }
+    for v in idioms {
+        let mut ds = vec![];
+        deletions(&v, &mut ds);
+        out.push(v);
+        out.extend(ds);
+    }
+    out
+}
+
 /// wide AND deep: three towers of depth 20 / 45 / 60 side by side in a product, a set and a conjunction (many nested
 /// compounds completed before the next one is entered)
 pub fn side_by_side_towers() -> Vec<R> {
@@ -671,6 +750,8 @@ pub fn u_term(f: &F, tier: Tier) -> Vec<R> {
     // sequence / the 70 000-character name of `huge_terms(4097)` are added by the enum-only checks C01, C14, C16 themselves)
     out.extend(huge_terms(257));
     out.extend(side_by_side_towers());
+    out.extend(fat_towers());
+    out.extend(related_siblings_and_idioms());
     out.extend(name_class_terms());
     out.extend(hash_twin_family(&[Tag::SetExt, Tag::Conj, Tag::IntInt, Tag::Sim, Tag::Inh, Tag::Product]));
     out
@@ -839,6 +920,13 @@ pub fn numeric_terms() -> Vec<R> {
     for m in magnitudes() {
         out.push(R::interval(m as usize));
         out.push(R::node(Tag::SeqConj, vec![R::word("a"), R::interval(m as usize), R::word("b1")]));
+    }
+    // intervals next to each other (a reader that adds up neighbouring intervals overflows on the extremes)
+    for (x, y) in [(usize::MAX, 1usize), (1, usize::MAX), (usize::MAX, usize::MAX), (2, 3), (0, 0), (1 << 63, 1 << 63)] {
+        out.push(R::node(Tag::SeqConj, vec![R::word("a"), R::interval(x), R::interval(y), R::word("b1")]));
+        out.push(R::node(Tag::SeqConj, vec![R::interval(x), R::interval(y)]));
+        out.push(R::node(Tag::Product, vec![R::interval(x), R::interval(y)]));
+        out.push(R::node(Tag::SetExt, vec![R::interval(x), R::interval(y)]));
     }
     out
 }
